@@ -464,6 +464,28 @@ static J gen_extreme(Chooser &ch)
       walk2(doc);
       if (!arrs.empty()) { J *a = arrs[ch.index(arrs.size())]; if (ch.flip()) a->a.clear(); else if (!a->a.empty()) a->a.resize(1); }
     }
+  // ... or all lists of one model / feature emptied together: parallel lists stay equally long, so a check that only compares
+  // their lengths lets them through
+  if (ch.chance(20))
+    {
+      std::vector<J *> objs2;
+      std::function<void(J &)> walk3 = [&](J &j) {
+        if (j.is_obj())
+          {
+            int na = 0;
+            for (auto &kv : j.o) { if (kv.second.is_arr() && kv.first != "features" && kv.first != "coordinates") na++; }
+            if (na >= 2) objs2.push_back(&j);
+            for (auto &kv : j.o) walk3(kv.second);
+          }
+        else if (j.is_arr()) for (auto &e : j.a) walk3(e);
+      };
+      walk3(doc);
+      if (!objs2.empty())
+        {
+          J *ob = objs2[ch.index(objs2.size())];
+          for (auto &kv : ob->o) if (kv.second.is_arr() && kv.first != "features" && kv.first != "coordinates" && !kv.second.a.empty() && !kv.second.a[0].is_obj()) kv.second.a.clear();
+        }
+    }
   J c = J::obj();
   c["world"] = doc.dump();
   c["queries"] = g::gen_queries(ch, w, 6, 85);
@@ -552,7 +574,7 @@ int main(int argc, char **argv)
     {"list_lengths", "single-feature worlds in which exactly one of the documented parallel lists has a different length (fractions, plume section tables, gaussian tables, smooth fractions, random min/max, grains lists, spreading velocities per ridge point, section entries for missing coordinates, depth value points with one or three coordinates); must throw", 120, gen_list_lengths, check_must_throw, 100, true, true},
     {"unsupported_option", "depth method 'continuous'; tian water content with an undocumented lithology; mass conserving with an undocumented reference model name; a world-level interpolation value outside the option list; must throw", 60, gen_unsupported, check_must_throw, 100, true, true},
     {"formatting", "one valid world emitted in two styles (indentation, // and /* */ comments, permuted keys, exponent / trailing-zero numbers): both accepted, answers bit-identical at 12 points", 80, gen_formatting, check_formatting, 100, true, true},
-    {"extreme_numbers", "schema-valid worlds with 1..3 numbers replaced by 0, -1, 1e-300, +-1e308, NaN/Infinity literals, sign flips, x1e6 and occasionally emptied/shortened lists: construction throws or succeeds, queries return or throw; each case in its own process, a crash is a failure", 200, gen_extreme, check_extreme, 100, true, true},
+    {"extreme_numbers", "schema-valid worlds with 1..3 numbers replaced by 0, -1, 1e-300, +-1e308, NaN/Infinity literals, sign flips, x1e6 and occasionally emptied/shortened lists (one list, or all parallel lists of one model together): construction throws or succeeds, queries return or throw; each case in its own process, a crash is a failure", 200, gen_extreme, check_extreme, 100, true, true},
     {"text_shapes", "texts that are extreme in shape rather than content: 3 .. 2 000 000 nested brackets / objects (unbalanced, balanced, as a value inside a valid world, as the coordinates), strings, keys and numbers of that many characters, arrays of that many points, that many comments; construction throws or succeeds (each case in its own process, a stack overflow is a crash). Non-trivial: n >= 900", 40, gen_shape, check_shape, 100, true, true},
   });
 }
